@@ -7,7 +7,8 @@
 //                                     call evaluated: the delta of the global evaluation counter;
 //                                     u = for double-valued calls the SAME operation performed on the
 //                                     underlying doubles directly, else 0)
-//   "st":  {"r":[{"kind","has","val","ref":{"has","val"},"al":{"v","f"}}...], "evals":n}   all registers afterwards
+//   "st":  {"r":[{"kind","has","val","ref":{"has","val","g"},"al":{"v","f"}}...], "evals":n}   all registers afterwards
+//          (ref.g: the caller's bits next to the flag bit of a proxy-flag closure are as the caller left them)
 // It contains no oracle: it executes and prints.  Every operator / <cmath> name comes from the shared
 // operation table ops.def; the overload that is called for a given (operation, kinds of the operand
 // registers) is chosen by the C++ compiler exactly as in user code.
@@ -17,6 +18,8 @@
 //   opt     xoptional<Probe, bool>                      optref  xoptional<Probe&, bool&>
 //   optcr   xoptional<const Probe&, const bool&>        optvr   xoptional<Probe&, bool>
 //   masked  xmasked_value<Probe, bool>                  mref    xmasked_value<Probe&, bool&>
+//   optbr   xoptional<Probe&, xdynamic_bitset<unsigned char>::reference>   (the flag is a PROXY: one bit of a
+//           bitset of the caller, the element type of xoptional_vector; the flag cell is bit 1 of a 3-bit set)
 //   dplain  double        dopt  xoptional<double, bool>        dmasked xmasked_value<double, bool>
 //           (real IEEE operands incl. NaN, infinities, fractions; see enc())
 //   mo      xmasked_value<xoptional<Probe, bool>, bool>   (the two families nested: a masked optional)
@@ -36,6 +39,7 @@
 // compile), -DLIFTED_NO_HOUSE (leave out the housekeeping calls beyond construction and accessors).
 #include <xtl/xoptional.hpp>
 #include <xtl/xmasked_value.hpp>
+#include <xtl/xdynamic_bitset.hpp>
 #include "probe.hpp"
 #if defined(LIFTED_PART) && LIFTED_PART != 0
 // vjson.hpp defines the (non-inline) ASan hook; only part 0 of a multi-part build may define the real one
@@ -72,6 +76,8 @@ using MRef = xtl::xmasked_value<Probe&, bool&>;
 using DOpt = xtl::xoptional<double, bool>;
 using DMsk = xtl::xmasked_value<double, bool>;
 using MO = xtl::xmasked_value<Opt, bool>;
+using BitSet = xtl::xdynamic_bitset<unsigned char>;
+using OBRef = xtl::xoptional<Probe&, BitSet::reference>;
 
 // ---------------------------------------------------------------- numbers in the trace
 // doubles: integers up to 2e9 as themselves, NaN as NANV, the infinities as PINFV / NINFV, every other value
@@ -131,6 +137,7 @@ template <> struct kinfo<Opt>   : kbase<Probe, F_OPT, true, false, false> {};
 template <> struct kinfo<ORef>  : kbase<Probe, F_OPT, true, false, false> {};
 template <> struct kinfo<OCRef> : kbase<Probe, F_OPT, false, false, false> {};
 template <> struct kinfo<OVRef> : kbase<Probe, F_OPT, true, false, false> {};
+template <> struct kinfo<OBRef> : kbase<Probe, F_OPT, true, false, false> {};
 template <> struct kinfo<Msk>   : kbase<Probe, F_MSK, true, false, false> {};
 template <> struct kinfo<MRef>  : kbase<Probe, F_MSK, true, false, false> {};
 template <> struct kinfo<double> : kbase<double, F_PLAIN, true, false, true> {};
@@ -207,6 +214,8 @@ struct slot
     std::unique_ptr<ORef> oref;
     std::unique_ptr<OCRef> ocref;
     std::unique_ptr<OVRef> ovref;
+    std::unique_ptr<OBRef> obref;
+    std::shared_ptr<BitSet> bb;    // the caller's bitset behind the proxy flag of an optbr register (bit 1; bits 0 and 2 are guards)
     std::unique_ptr<Msk> msk;
     std::unique_ptr<MRef> mref;
     std::unique_ptr<MO> mo;
@@ -218,13 +227,18 @@ struct slot
 
     void clear()
     {
-        opt.reset(); oref.reset(); ocref.reset(); ovref.reset(); msk.reset(); mref.reset(); mo.reset();
+        opt.reset(); oref.reset(); ocref.reset(); ovref.reset(); obref.reset(); bb.reset(); msk.reset(); mref.reset(); mo.reset();
         dopt.reset(); dmsk.reset(); bv.reset(); bf.reset();
         pv = Probe(0); iv = 0; dv = 0; kind = "plain";
     }
     void backing(int v, bool h) { bv.reset(new Probe(v)); bf.reset(new bool(h)); }
-    bool vref() const { return kind == "optref" || kind == "optcr" || kind == "optvr" || kind == "mref"; }
-    bool fref() const { return kind == "optref" || kind == "optcr" || kind == "mref"; }
+    void backing_bits(int v, bool h) { bv.reset(new Probe(v)); bb.reset(new BitSet(3, false)); (*bb)[0] = true; (*bb)[1] = h; }
+    bool vref() const { return kind == "optref" || kind == "optcr" || kind == "optvr" || kind == "mref" || kind == "optbr"; }
+    bool fref() const { return kind == "optref" || kind == "optcr" || kind == "mref" || kind == "optbr"; }
+    bool fbit() const { return kind == "optbr"; }
+    bool flagcell() const { return fbit() ? bool((*bb)[1]) : *bf; }
+    // the guard bits around the flag bit are intact (bit 0 set, bit 2 clear, three bits in all)
+    bool guards_ok() const { return !fbit() || (bb->size() == 3 && bool((*bb)[0]) && !bool((*bb)[2])); }
 };
 
 struct machine
@@ -247,6 +261,7 @@ struct machine
         if (s.kind == "optref") return f(*s.oref);
         if (s.kind == "optcr") return f(*s.ocref);
         if (s.kind == "optvr") return f(*s.ovref);
+        if (s.kind == "optbr") return f(*s.obref);
         if (s.kind == "masked") return f(*s.msk);
         if (s.kind == "mref") return f(*s.mref);
         if (s.kind == "dplain") return f(s.dv);
@@ -423,7 +438,7 @@ struct machine
         vj::out w;
         w.ks("kind", s.kind).kb("has", o.has).kv("val", o.val);
         vj::out ref;
-        ref.kb("has", s.fref() ? *s.bf : false).kv("val", s.vref() ? s.bv->v : 0);
+        ref.kb("has", s.fref() ? s.flagcell() : false).kv("val", s.vref() ? s.bv->v : 0).kb("g", s.guards_ok());
         w.kraw("ref", ref.obj());
         // the lowest register closing over the same value cell / flag cell
         long long av = i, af = i;
@@ -431,7 +446,7 @@ struct machine
         {
             slot& t = r[size_t(k)];
             if (s.vref() && t.vref() && t.bv == s.bv) av = k;
-            if (s.fref() && t.fref() && t.bf == s.bf) af = k;
+            if (s.fref() && t.fref() && !s.fbit() && !t.fbit() && t.bf == s.bf) af = k;
         }
         vj::out al;
         al.kv("v", av).kv("f", af);
@@ -450,6 +465,7 @@ struct machine
         else if (how == "optref") { s.backing(v, has); s.kind = "optref"; s.oref.reset(new ORef(*s.bv, *s.bf)); }
         else if (how == "optcr") { s.backing(v, has); s.kind = "optcr"; s.ocref.reset(new OCRef(*s.bv, *s.bf)); }
         else if (how == "optvr") { s.backing(v, false); s.kind = "optvr"; s.ovref.reset(new OVRef(*s.bv, bool(has))); }
+        else if (how == "optbr") { s.backing_bits(v, has); s.kind = "optbr"; s.obref.reset(new OBRef(*s.bv, (*s.bb)[1])); }
         else if (how == "masked2") { s.kind = "masked"; s.msk.reset(new Msk(Probe(v), bool(has))); }
         else if (how == "mref") { s.backing(v, has); s.kind = "mref"; s.mref.reset(new MRef(*s.bv, *s.bf)); }
         else if (how == "dplain") { s.kind = "dplain"; s.dv = dec(v); }
@@ -492,7 +508,7 @@ struct machine
         if (!t.vref()) script_error("alias needs a reference kind as its source");
         std::shared_ptr<Probe> bv = t.bv;
         std::shared_ptr<bool> bf = t.bf;
-        bool tf = t.fref();
+        bool tf = t.fref() && !t.fbit();
         s.clear();
         s.bv = bv;
         if (how == "optvr") { s.bf.reset(new bool(false)); s.kind = "optvr"; s.ovref.reset(new OVRef(*s.bv, bool(has))); }
@@ -774,7 +790,8 @@ struct machine
             slot& s = at(a.num("i"));
             if (!s.bv) script_error("Poke needs a reference kind");
             *s.bv = Probe(int(a.num("v")));
-            if (s.kind != "optvr") *s.bf = a.at("has").b;
+            if (s.fbit()) (*s.bb)[1] = a.at("has").b;
+            else if (s.kind != "optvr") *s.bf = a.at("has").b;
             return VOID_OBS;
         }
         script_error("unknown op", op);
